@@ -605,6 +605,14 @@ class Interp:
             return
         if isinstance(v, Untracked):
             raise Unsupported('untracked value stored into tracked map field %r' % (field,))
+        if v is None and getattr(m, 'may_hold_none', None) is not None and field in m.fields:
+            # None stored as a value into a dict that may hold None: some value that IS None
+            arr = m.fields[field]
+            w = self.ctx.fresh('none_value', arr.range())
+            self.ctx.assume(m.may_hold_none(w))
+            m.fields[field] = z3.Store(arr, zk, w)
+            m.dom = z3.SetAdd(m.dom, zk)
+            return
         if isinstance(v, SymOpt) and getattr(m, 'may_hold_none', None) is not None:
             # a dict that may hold None values: the Optional is stored as the value it stands for - its own value, or a value that IS None
             self.ctx.check('stored_optional_is_present_or_a_none_value', z3.Or(v.is_some, m.may_hold_none(to_z3(v.value))), 'auxiliary')
